@@ -66,9 +66,15 @@ impl ScProp {
                     Dm::Rfsm
                 }
             }
-            Variant::C09 => {
-                if rng.chance(1, 5) {
-                    Dm::Null
+            Variant::C09 => match rng.below(5) {
+                // the statement ranges over all three data models
+                0 => Dm::Null,
+                1 => Dm::Ecma,
+                _ => Dm::Rfsm,
+            },
+            Variant::C08 => {
+                if std::env::var("VERIF_EXPERIMENT_ECMA").is_ok() {
+                    Dm::Ecma
                 } else {
                     Dm::Rfsm
                 }
@@ -390,7 +396,9 @@ impl Property for ScProp {
                 d.context.join("\n")
             );
             if fams.contains(&d.family) {
-                let sig = format!("{}:{}", d.family, sig_of(&d.expected, &d.got));
+                // findings are per data model: what the ECMAScript binding does is not what rfsm-expression does
+                let dm_tag = if doc.dm == Dm::Ecma { ":ecmascript" } else { "" };
+                let sig = format!("{}:{}{}", d.family, sig_of(&d.expected, &d.got), dm_tag);
                 verdict.violations.push(viol(self.id, &rule, msg, sig));
             } else {
                 // not this property's rule family: remember it, but still evaluate this property's own
